@@ -33,6 +33,8 @@ import Plotink.Gen.dotProductXY
 import Plotink.Gen.position_scale
 import Plotink.Gen.points_near
 import Plotink.Gen.points_equal
+import Plotink.Gen.pathdata_first_point
+import Plotink.Gen.pathdata_last_point
 import Plotink.Gen.vInitial_VF_A_Dx
 import Plotink.Gen.vFinal_Vi_A_Dx
 /-! `gen <function> <dps> <args…>`: run a *generated* definition with the concrete rounding instance
@@ -51,7 +53,11 @@ partial def parseNested (cs : List Char) : Py.Val × List Char :=
   | '[' :: rest => parseNestedList rest []
   | _ =>
     let stop := fun (c : Char) => c == ',' || c == ']'
-    (parseVal (String.ofList (cs.takeWhile (fun c => !stop c))), cs.dropWhile (fun c => !stop c))
+    let tok := String.ofList (cs.takeWhile (fun c => !stop c))
+    -- inside a nested list a string can only be a single character: `s<code point>` (commas separate the items)
+    let v := if tok.startsWith "s" then (match decodeStr (tok.drop 1).toString with | some t => Py.Val.str t | none => .err)
+             else parseVal tok
+    (v, cs.dropWhile (fun c => !stop c))
 partial def parseNestedList (cs : List Char) (acc : List Py.Val) : Py.Val × List Char :=
   match cs with
   | [] => (.err, [])
@@ -132,6 +138,8 @@ def genHandle (toks : List String) : String :=
       | "points_near", [a, b, c] => Gen.points_near R p a b c
       | "square_dist", [a, b] => Gen.square_dist R p a b
       | "points_equal", [a, b] => Gen.points_equal R p a b
+      | "pathdata_first_point", [a] => Gen.pathdata_first_point R p a
+      | "pathdata_last_point", [a] => Gen.pathdata_last_point R p a
       | "vInitial_VF_A_Dx", [a, b, c] => Gen.vInitial_VF_A_Dx R p a b c
       | "vFinal_Vi_A_Dx", [a, b, c] => Gen.vFinal_Vi_A_Dx R p a b c
       | "checkLimitsTol", [a, b, c, d] => Gen.checkLimitsTol R p a b c d
